@@ -254,6 +254,8 @@ type c17DS struct {
 	wayCls       map[string]bool
 	relCls       map[string]bool
 	label        string
+	idScheme     string               // "" = ids in the packing domain 0 < id < 2^40; else see exoticID
+	usedAll      map[int64]bool       // neg-unique: ids taken by any element type
 	keySuffix    map[osm.WayID]string // enumerated ways: appended to classification violation keys
 	routeWaysMax int                  // most member ways of a generated network route
 }
@@ -264,6 +266,9 @@ func c17NewDS(seed uint64, label string) *c17DS {
 }
 
 func (d *c17DS) newID(used map[int64]bool) int64 {
+	if d.idScheme != "" {
+		return d.exoticID(used)
+	}
 	for {
 		var id int64
 		// ids stay inside the documented packing domain of osm.FeatureID, 0 < id < 2^40
@@ -283,6 +288,52 @@ func (d *c17DS) newID(used map[int64]bool) int64 {
 	}
 }
 
+// exoticID draws ids outside 0 < id < 2^40 in one of the schemes for which the element-to-feature
+// mapping of the unchanged library is exact (notes/C17.md, "exotic ids"):
+//
+//	neg-unique  negative ids (editor placeholders, ogr2osm), no id used by two element types
+//	            (refs to absent elements included): all option sets
+//	neg-shared  negative ids, deliberately shared across types (node -1, way -1, relation -1):
+//	            only with NoRelationMembership (the membership map is keyed by the packed id)
+//	huge        ids in [2^40, 2^44), shared across types: all option sets
+func (d *c17DS) exoticID(used map[int64]bool) int64 {
+	if d.idScheme == "neg-unique" {
+		if d.usedAll == nil {
+			d.usedAll = map[int64]bool{}
+		}
+		used = d.usedAll
+	}
+	for {
+		var id int64
+		switch d.idScheme {
+		case "neg-unique":
+			if d.r.Chance(0.8) {
+				id = -int64(d.r.Range(1, 400))
+			} else {
+				id = -d.r.Int64Range(1_000_000, 1<<45)
+			}
+		case "neg-shared":
+			if d.r.Chance(0.7) {
+				id = -int64(d.r.Range(1, 40))
+			} else {
+				id = -d.r.Int64Range(1<<40-20, 1<<41) // wide enough never to run out
+			}
+		case "huge":
+			if d.r.Chance(0.7) {
+				id = 1<<40 + int64(d.r.Range(0, 40))
+			} else {
+				id = d.r.Int64Range(1<<40, 1<<44-1)
+			}
+		default:
+			panic("C17 harness: unknown id scheme " + d.idScheme)
+		}
+		if !used[id] {
+			used[id] = true
+			return id
+		}
+	}
+}
+
 func (d *c17DS) newCoord() c17Pt {
 	for {
 		p := c17Pt{d.r.Coord(170), d.r.Coord(80)}
@@ -294,6 +345,9 @@ func (d *c17DS) newCoord() c17Pt {
 
 func (d *c17DS) interestingTag(forWay bool) osm.Tag {
 	r := d.r
+	if r.Intn(40) == 0 {
+		return osm.Tag{Key: "", Value: r.Str(4)} // an empty key is a key like any other (not in the uninteresting list)
+	}
 	if forWay {
 		// keys that never make a closed way an area
 		switch r.Intn(6) {
@@ -840,7 +894,7 @@ func (d *c17DS) wayMember(pMissing float64) osm.Member {
 func (d *c17DS) relMember() osm.Member {
 	d.relCls["relation-member"] = true
 	if len(d.o.Relations) == 0 || d.r.Chance(0.2) {
-		return osm.Member{Type: osm.TypeRelation, Ref: int64(d.r.Range(1, 60)), Role: d.role()}
+		return osm.Member{Type: osm.TypeRelation, Ref: d.newID(d.usedR), Role: d.role()}
 	}
 	return osm.Member{Type: osm.TypeRelation, Ref: int64(d.o.Relations[d.r.Intn(len(d.o.Relations))].ID), Role: d.role()}
 }
@@ -1238,7 +1292,11 @@ func (d *c17DS) otherRelation() {
 // c17Random generates one data set. size 0 = tiny, 1 = small, 2 = medium.
 // maxRouteWays bounds the member ways of network routes; routes > 0 forces that many of them.
 func c17Random(seed uint64, size, maxRouteWays, routes int) *c17DS {
-	d := c17NewDS(seed, "random")
+	return c17RandomIn(c17NewDS(seed, "random"), size, maxRouteWays, routes)
+}
+
+// c17RandomIn fills a prepared (possibly id-schemed) data set.
+func c17RandomIn(d *c17DS, size, maxRouteWays, routes int) *c17DS {
 	r := d.r
 	nN := [][2]int{{0, 5}, {3, 12}, {10, 30}}[size]
 	nW := [][2]int{{0, 3}, {1, 6}, {4, 12}}[size]
@@ -1267,7 +1325,13 @@ func c17Random(seed uint64, size, maxRouteWays, routes int) *c17DS {
 		case x < 52:
 			d.networkRoute(maxRouteWays)
 		case x < 75:
-			d.multipolygon()
+			if d.idScheme != "" {
+				// multipolygon features take their header from the packed id even in the
+				// unchanged library: not part of the exact schemes
+				d.otherRelation()
+			} else {
+				d.multipolygon()
+			}
 		default:
 			d.otherRelation()
 		}
@@ -2731,6 +2795,9 @@ func c17Check(res *fw.Result, d *c17DS) {
 	var base []map[string]any
 	var baseJS []byte
 	for mask := 0; mask < 16; mask++ {
+		if d.idScheme == "neg-shared" && mask&4 == 0 {
+			continue // exact only under NoRelationMembership
+		}
 		on := c17MaskName(mask)
 		in := eq.Clone(pristine)
 		opts := c17Options(mask, d.r, false)
@@ -2776,7 +2843,7 @@ func c17Check(res *fw.Result, d *c17DS) {
 		res.Add("features", int64(len(feats)))
 		u.checkOutput(mask, feats)
 
-		if mask == 0 {
+		if base == nil && (mask == 0 || (d.idScheme == "neg-shared" && mask == 4)) {
 			base, baseJS = feats, js
 		} else if base != nil {
 			// the option set may only delete the documented keys from the baseline output
@@ -2895,6 +2962,11 @@ func c17Exec(c fw.Case) *fw.Result {
 		}
 		d := c17Random(c.Seed, int(c.Int("size")), rw, int(c.Int("routes")))
 		c17Check(res, d)
+	case "exoticids":
+		d := c17NewDS(c.Seed, "exoticids/"+c.Str("scheme"))
+		d.idScheme = c.Str("scheme")
+		d.relCls["ids-"+d.idScheme] = true
+		c17Check(res, c17RandomIn(d, int(c.Int("size")), 12, int(c.Int("routes"))))
 	case "metamatrix":
 		ds := c17MetaMatrix()
 		for _, d := range ds {
@@ -2973,6 +3045,16 @@ func init() {
 				cs = append(cs, fw.Case{Kind: "random", Seed: gen.Sub(seed, "c17", i), P: map[string]int64{"size": size, "rw": rw, "routes": routes}})
 			}
 			cs = append(cs, c17InvalidCases(tier, seed)...)
+			exotic := 20
+			if tier == "thorough" {
+				exotic = 400
+			}
+			for si, scheme := range []string{"neg-unique", "neg-shared", "huge"} {
+				for i := 0; i < exotic; i++ {
+					cs = append(cs, fw.Case{Kind: "exoticids", Seed: gen.Sub(seed, "c17ids"+scheme, i), S: map[string]string{"scheme": scheme},
+						P: map[string]int64{"size": int64((i + si) % 3 % 2), "routes": int64(i % 3 / 2)}})
+				}
+			}
 			cs = append(cs, fw.Case{Kind: "tinytable", Seed: 1}, fw.Case{Kind: "wnmatrix", Seed: 1}, fw.Case{Kind: "metamatrix", Seed: 1})
 			tiny := 40
 			if tier == "thorough" {
